@@ -179,7 +179,7 @@ def run_cases(ctx, cases, trace=False, cflags_extra=("-fno-sanitize=nonnull-attr
         # after a run that ended abnormally (the recorded back-to-back findings) sometimes touches a freed request in
         # msg_free; such a report must not kill the harness and hide the remaining cases.  Reports are classified below.
         ctx.cc([os.path.join(vlib.TOOLS, "harness", "c01_harness.c"), os.path.join(vlib.TOOLS, "simmpi", "simmpi.c")], exe, v,
-               extra=("-fsanitize-recover=address",))
+               extra=("-fsanitize-recover=address", "-DTRACE_MAXPAYLOAD=4194304"))   # collective contributions with large items must not be cut in the trace
     env = dict(os.environ, VERIF_SCRATCH=ctx.scratch, ASAN_OPTIONS="detect_leaks=0:halt_on_error=0")
     if trace:
         env["VERIF_TRACE"] = "1"
